@@ -107,7 +107,7 @@ CHECKS = {
         'Not proved: the package level (other members, media types: C03/C16 theorems and the oracle). Tied by correspondence of xml_parse + load_doc '
         'with load() on every sample document of the repository, ten structure-preserving mutations of each and synthetic packages, '
         'and judged by an independent source-vs-saved comparison (zipfile + expat).',
-   note='Axioms: none. White space is ignored by the oracle only where the schema gives element-only content. Recorded findings: fonts declared only in content.xml; meta.xml of an object; a name used by two list/data styles of the two parts; a common style renamed on a clash across families.',
+   note='Axioms: none. White space is ignored by the oracle only where the schema gives element-only content. Recorded findings: fonts declared only in content.xml; meta.xml of an object; a name used by two list/data styles of the two parts; a common style renamed on a clash across families; two styles of one name and different families inside one part.',
    tech='Coq proof (loader model over arbitrary part trees, composition with C04) + correspondence on real and mutated packages',
    ref='5/C05'),
  'C06': dict(
